@@ -9,6 +9,7 @@
 #include <array>
 #include <cstdint>
 #include <list>
+#include <optional>
 #include <string>
 #include <tuple>
 #include <utility>
